@@ -21,19 +21,36 @@ a345  == <<Q(3, 5), Q(4, 5)>>
 a435  == <<Q(4, 5), Q(3, 5)>>
 am345 == <<Q(-3, 5), Q(4, 5)>>
 K == One
+CDot2(u, v) == LET RECURSIVE F(_) F(i) == IF i > Len(u) THEN CZero ELSE CAdd(CMul(u[i], v[i]), F(i + 1)) IN F(1)
+\* explicit matrices for GaussianTransform / Interferometer source operations: exact products of lattice gates
+EmbedM(G, loc, n) == LET t == Len(loc)
+                         idx == [a \in 1 .. 2 * t |-> IF a <= t THEN loc[a] ELSE n + loc[a - t]]
+                         l(i) == IF \E a \in 1 .. 2 * t : idx[a] = i THEN CHOOSE a \in 1 .. 2 * t : idx[a] = i ELSE 0
+                     IN  [i \in 1 .. 2 * n |-> [j \in 1 .. 2 * n |-> IF l(i) = 0 \/ l(j) = 0 THEN (IF i = j THEN One ELSE Zero) ELSE G[l(i)][l(j)]]]
+GT2 == MatMul(S2(Q(4, 3), A0), BS(a345, APi2))
+GT3 == MatMul(MatMul(EmbedM(BS(a345, APi2), <<1, 2>>, 3), EmbedM(S2(Q(4, 3), a435), <<3, 2>>, 3)), EmbedM(Sq(Q(3, 2), a345), <<1>>, 3))
+CEmbed(U, loc, n) == [i \in 1 .. n |-> [j \in 1 .. n |->
+                        IF (\E a \in 1 .. Len(loc) : loc[a] = i) /\ (\E b \in 1 .. Len(loc) : loc[b] = j)
+                        THEN U[CHOOSE a \in 1 .. Len(loc) : loc[a] = i][CHOOSE b \in 1 .. Len(loc) : loc[b] = j]
+                        ELSE IF i = j THEN COne ELSE CZero]]
+CMatMul(A, B) == [i \in 1 .. Len(A) |-> [j \in 1 .. Len(B[1]) |-> CDot2(A[i], [c \in 1 .. Len(B) |-> B[c][j]])]]
+U3 == CMatMul(CEmbed(BSU(a345, APi2), <<1, 3>>, 3), CEmbed(MZU(a435, a345), <<2, 3>>, 3))
 \* the pool is written for three abstract slots x, y, z, instantiated by the chosen subset
 PoolGU(x, y, z) == << Op("Rgate", <<a345>>, <<x>>), OpH("Rgate", <<a435>>, <<y>>), Op("Sgate", <<Q(4, 3), APi2>>, <<y>>),
                       OpH("Sgate", <<Q(3, 2), a345>>, <<x>>), Op("Dgate", <<Q(1, 2), a345>>, <<x>>), OpH("Dgate", <<Q(1, 4), APi2>>, <<z>>),
                       Op("BSgate", <<a345, APi2>>, <<x, y>>), Op("BSgate", <<a435, A0>>, <<z, x>>), OpH("BSgate", <<a345, am345>>, <<y, z>>),
                       Op("S2gate", <<Q(4, 3), A0>>, <<y, x>>), OpH("S2gate", <<Q(3, 2), a345>>, <<x, z>>),
-                      Op("MZgate", <<a345, a435>>, <<x, y>>), OpH("MZgate", <<APi2, a345>>, <<z, y>>) >>
+                      Op("MZgate", <<a345, a435>>, <<x, y>>), OpH("MZgate", <<APi2, a345>>, <<z, y>>),
+                      Op("GaussianTransform", <<GT2>>, <<y, x>>), Op("GaussianTransform", <<GT3>>, <<z, x, y>>),
+                      Op("Interferometer", <<U3>>, <<y, z, x>>) >>
 PoolPassive(x, y, z) == << Op("Rgate", <<a345>>, <<x>>), OpH("Rgate", <<a435>>, <<y>>), Op("LossChannel", <<Q(4, 5)>>, <<y>>),
                            Op("LossChannel", <<Q(3, 5)>>, <<z>>), Op("BSgate", <<a345, APi2>>, <<x, y>>), Op("BSgate", <<a435, A0>>, <<z, x>>),
-                           OpH("BSgate", <<a345, am345>>, <<y, z>>), Op("MZgate", <<a345, a435>>, <<x, y>>), OpH("MZgate", <<APi2, a345>>, <<z, y>>) >>
+                           OpH("BSgate", <<a345, am345>>, <<y, z>>), Op("MZgate", <<a345, a435>>, <<x, y>>), OpH("MZgate", <<APi2, a345>>, <<z, y>>),
+                           Op("Interferometer", <<U3>>, <<y, z, x>>) >>
 UsedSeq == SetToSortSeq(used, <)
 Slot(i) == UsedSeq[((i - 1) % Len(UsedSeq)) + 1]
 Pool    == IF TargetId = "passive" THEN PoolPassive(Slot(1), Slot(2), Slot(3)) ELSE PoolGU(Slot(1), Slot(2), Slot(3))
-Valid(op) == Len(op.modes) = 1 \/ op.modes[1] # op.modes[2]
+Valid(op) == \A i, j \in DOMAIN op.modes : i # j => op.modes[i] # op.modes[j]
 Init == /\ used \in {S \in SUBSET (0 .. RegSize - 1) : Cardinality(S) = SubsetSize}
         /\ \E f \in [1 .. Len0 -> 1 .. Len(Pool)] :
               circ = [i \in 1 .. Len0 |-> Pool[f[i]]] /\ \A i \in 1 .. Len0 : Valid(Pool[f[i]])
@@ -72,11 +89,11 @@ NetMatchesState == AllUnitary =>
 
 \* ---- net transfer matrix of a passive circuit ---------------------------------------------------------------
 CIdM(n)  == [i \in 1 .. n |-> [j \in 1 .. n |-> IF i = j THEN COne ELSE CZero]]
-CDot2(u, v) == LET RECURSIVE F(_) F(i) == IF i > Len(u) THEN CZero ELSE CAdd(CMul(u[i], v[i]), F(i + 1)) IN F(1)
 LocalU(op) == CASE op.name = "Rgate" -> << << IF op.dag THEN CConj(op.p[1]) ELSE op.p[1] >> >>
                 [] op.name = "LossChannel" -> << << <<op.p[1], Zero>> >> >>
                 [] op.name = "BSgate" -> IF op.dag THEN [i \in 1 .. 2 |-> [j \in 1 .. 2 |-> CConj(BSU(op.p[1], op.p[2])[j][i])]] ELSE BSU(op.p[1], op.p[2])
                 [] op.name = "MZgate" -> IF op.dag THEN [i \in 1 .. 2 |-> [j \in 1 .. 2 |-> CConj(MZU(op.p[1], op.p[2])[j][i])]] ELSE MZU(op.p[1], op.p[2])
+                [] op.name = "Interferometer" -> op.p[1]
 RECURSIVE TransferFrom(_, _)
 TransferFrom(Tm, i) ==
   IF i > Len(circ) THEN Tm
